@@ -198,7 +198,7 @@ def run_interleaving(sched, n_ops, make_job, schedule, after_step=None, still_wa
     n_ops[i]            number of operations of actor i
     make_job(i, k)      -> callable executed inside actor i for its k-th operation
     schedule            list of ints; the j-th scheduling decision picks runnable[schedule[j] % len(runnable)]
-                        (decisions beyond the list pick the first runnable actor)
+                        (decisions beyond the list go round-robin over the runnable actors)
     after_step(ev)      called in the scheduler thread after every step; ev = dict(step, actor, op, outcome, value|error|lock)
     still_wanted(i, k)  -> False to skip the remaining operations of actor i (e.g. its session already failed)
     returns the list of events; raises Deadlock if unfinished actors exist but none can run.
@@ -222,7 +222,7 @@ def run_interleaving(sched, n_ops, make_job, schedule, after_step=None, still_wa
             if unfinished:
                 raise Deadlock([(i, sched.actors[i].blocked_on.name if sched.actors[i].blocked_on else None) for i in unfinished])
             return events
-        c = schedule[j] if j < len(schedule) else 0
+        c = schedule[j] if j < len(schedule) else j
         j += 1
         i = runnable[c % len(runnable)]
         if sched.is_blocked(i):
@@ -251,6 +251,25 @@ def run_interleaving(sched, n_ops, make_job, schedule, after_step=None, still_wa
 def _pragmas(db, connection):
     # durability is irrelevant here; locking behaviour is unchanged by these
     connection.execute('PRAGMA synchronous = OFF')
+    connection.execute('PRAGMA journal_mode = MEMORY').fetchall()
+
+
+def make_logging_connection(log):
+    """sqlite3.Connection subclass whose cursors append (thread name, sql, params) to `log` (statement log, B7)"""
+
+    class LoggingCursor(sqlite3.Cursor):
+        def execute(self, sql, *args):
+            log.append((threading.current_thread().name, sql, args[0] if args else None))
+            return sqlite3.Cursor.execute(self, sql, *args)
+
+        def executemany(self, sql, *args):
+            log.append((threading.current_thread().name, sql, list(args[0]) if args else None))
+            return sqlite3.Cursor.executemany(self, sql, *args)
+
+    class LoggingConnection(sqlite3.Connection):
+        def cursor(self, factory=None):
+            return sqlite3.Connection.cursor(self, LoggingCursor)
+    return LoggingConnection
 
 
 class World(object):
@@ -268,12 +287,14 @@ class World(object):
         self.layout = layout
         self.dbs = []
         self._classes = []
+        self.sql_log = []
+        factory = make_logging_connection(self.sql_log)
         ndb = n if layout == 'multi' else 1
         for k in range(ndb):
             db = Database()
             classes = define(db)
             db.on_connect(provider='sqlite')(_pragmas)
-            db.bind('sqlite', filename, create_db=True, timeout=0)
+            db.bind('sqlite', filename, create_db=True, timeout=0, factory=factory)
             db.generate_mapping(create_tables=(k == 0))
             self.dbs.append(db)
             self._classes.append(classes)
@@ -289,25 +310,35 @@ class World(object):
         return self._classes[i if self.layout == 'multi' else 0]
 
     # ---- per case ------------------------------------------------------------------------
-    def open_case(self):
-        """fresh actor threads (=> fresh pooled connections), fresh scheduler locks"""
-        self.sched = Scheduler(self.n, on_actor_exit=self._actor_exit)
+    def open_case(self, n=None):
+        """actor threads (and their pooled connections) persist from case to case as in a long-running program; every case
+        gets fresh scheduler locks and starts with no session open anywhere"""
+        n = n or self.n
+        if self.sched is None or len(self.sched.actors) < n:
+            if self.sched is not None:
+                self.sched.close()
+            self.sched = Scheduler(max(n, self.n), on_actor_exit=self._actor_exit)
+        self.sched.locks = []
         if self.layout == 'shared':
             prov = self.dbs[0].provider
             prov.transaction_lock = self.sched.lock('transaction_lock')
             prov.pre_transaction_lock = self.sched.lock('pre_transaction_lock')
         return self.sched
 
-    def _actor_exit(self, i):
-        """runs inside the dying actor thread: drop whatever session/connection it still holds"""
+    def _actor_cleanup(self, i):
+        """runs inside actor i: drop whatever session it still holds (normally nothing)"""
         from pony.orm import core
+        if core.local.db_session is not None or core.local.db2cache or core.local.db_context_counter:
+            try:
+                core.rollback()
+            finally:
+                core.local.db_session = None
+                core.local.db_context_counter = 0
+
+    def _actor_exit(self, i):
+        """runs inside the dying actor thread"""
         try:
-            if core.local.db_session is not None or core.local.db2cache:
-                try:
-                    core.rollback()
-                finally:
-                    core.local.db_session = None
-                    core.local.db_context_counter = 0
+            self._actor_cleanup(i)
         except Exception:
             pass
         try:
@@ -316,18 +347,36 @@ class World(object):
             pass
 
     def close_case(self):
-        if self.sched is not None:
-            self.sched.close()
+        sched = self.sched
+        if sched is None:
+            return
+        if any(a.status != 'idle' for a in sched.actors):      # a blocked actor (deadlock): throw the threads away
             self.sched = None
+            sched.close()
+            return
+        for a in sched.actors:
+            res = sched.step(a.idx, lambda i=a.idx: self._actor_cleanup(i))
+            if res[0] != 'ok':
+                self.sched = None
+                sched.close()
+                return
+
+    def shutdown(self):
+        if self.sched is not None:
+            sched, self.sched = self.sched, None
+            sched.close()
 
     def monitor(self):
         """plain sqlite3 connection in autocommit mode: sees committed data only"""
         if self.mon is None:
             self.mon = sqlite3.connect(self.filename, timeout=0, isolation_level=None)
+            self.mon.execute('PRAGMA synchronous = OFF')
+            self.mon.execute('PRAGMA journal_mode = MEMORY').fetchall()
         return self.mon
 
     def close(self):
         self.close_case()
+        self.shutdown()
         if self.mon is not None:
             self.mon.close()
             self.mon = None
@@ -356,3 +405,108 @@ def raised_inside_pony(e):
         tb = tb.tb_next
     fn = last.tb_frame.f_code.co_filename if last is not None else ''
     return '/pony/' in fn.replace('\\', '/')
+
+
+# ---------------------------------------------------------------------------------------------------------------------
+# sessions as actors
+# ---------------------------------------------------------------------------------------------------------------------
+
+class ActorState(object):
+    """what one actor's session holds (lives in the harness, touched only from the actor's own steps)"""
+
+    def __init__(self, world, idx, spec):
+        self.world = world
+        self.idx = idx
+        self.spec = spec
+        self.db = world.db(idx)
+        self.classes = world.classes(idx)
+        self.objs = {}             # check-specific handle -> pony object
+        self.begun = False
+        self.ended = False
+        self.failed = None         # the exception that ended the session
+        self.failed_at = None      # op index (or 'end')
+        self.committed = False
+        self.data = {}             # check-specific bookkeeping
+
+
+def run_sessions(world, actors, exec_op, schedule, snapshot=None):
+    """Run one case: actors = [{'session': {db_session kwargs}, 'ops': [...], 'end': 'commit'|'rollback'|'raise'}, ...].
+
+    Actor i enters `db_session(**session)` in the step of its first operation, performs `exec_op(state, op)` per step and
+    leaves the session in a final step ('end').  An operation that raises ends the session at once the way a `with
+    db_session:` block does (`__exit__(exc_type, exc, tb)` => rollback) and the remaining operations are skipped.
+    `snapshot()` (scheduler thread) is taken before the first step and after every step: ev['before'] / ev['after'].
+    Every event also carries ev['sql'] = statements [(sql, params)] issued by the acting thread during the step.
+    Returns (events, states); raises Deadlock.
+    """
+    from pony.orm import db_session
+    n = len(actors)
+    states = [ActorState(world, i, actors[i]) for i in range(n)]
+    sched = world.sched
+    log = world.sql_log
+    del log[:]
+    last = {'snap': snapshot() if snapshot is not None else None, 'mark': 0}
+
+    def make_job(i, k):
+        st = states[i]
+        ops = st.spec['ops']
+
+        def job():
+            if not st.begun:
+                st.session = db_session(**st.spec.get('session', {}))
+                st.session.__enter__()
+                st.begun = True
+            if k < len(ops):
+                try:
+                    return exec_op(st, ops[k])
+                except Exception as e:
+                    st.failed, st.failed_at = e, k
+                    st.ended = True
+                    try:
+                        st.session.__exit__(type(e), e, e.__traceback__)
+                    except Exception as e2:
+                        st.data['exit_error'] = e2
+                    raise
+            how = st.spec.get('end', 'commit')
+            st.ended = True
+            try:
+                if how == 'commit':
+                    st.session.__exit__()
+                    st.committed = True
+                elif how == 'rollback':
+                    from pony.orm import rollback
+                    try:
+                        rollback()
+                    finally:
+                        st.session.__exit__()
+                else:
+                    exc = ValueError('body failed')
+                    st.session.__exit__(ValueError, exc, None)
+            except Exception as e:
+                st.failed, st.failed_at = e, 'end'
+                raise
+            return how
+        return job
+
+    def after_step(ev):
+        name = 'actor%d' % ev['actor']
+        ev['sql'] = [(sql, params) for (who, sql, params) in log[last['mark']:] if who == name]
+        ev['sql_others'] = [(who, sql) for (who, sql, params) in log[last['mark']:] if who != name]
+        last['mark'] = len(log)
+        if snapshot is not None:
+            ev['before'] = last['snap']
+            ev['after'] = last['snap'] = snapshot()
+
+    def still_wanted(i, k):
+        return not states[i].ended
+
+    events = run_interleaving(sched, [len(a['ops']) + 1 for a in actors], make_job, schedule, after_step, still_wanted)
+    return events, states
+
+
+def new_workdir(tag):
+    """scratch directory for a replay (no ctx available): under <home>/.work, removed by the caller"""
+    home = os.environ.get('VERIF_HOME') or os.path.dirname(os.path.dirname(os.path.abspath(__file__)))
+    d = os.path.join(home, '.work', '%s-%d' % (tag, os.getpid()))
+    os.makedirs(d, exist_ok=True)
+    return d
